@@ -478,7 +478,7 @@ func init() {
 	fw.Register(&fw.Property{
 		ID:          "C04",
 		Level:       "exploration",
-		Rule:        "table pairs from one key universe (disjoint either way, interleaved, nested, identical, shifted by 1/254/255/256 rows so every block boundary moves, random overlap; 0/1/255/256/765 rows on either side incl. empty; single, composite and absent keys; optional extra column; same or separate stores), both built by ingest with unique keys and verified by the structural monitor first; diff(T1,T2), diff(T2,T1) and diff(T1,T1) are drained and compared with a set-difference model keyed by key hash: exactly one event per added/removed/modified key, none for identical rows, none twice, offsets and row hashes address the right rows (also when resolved through RowListReader / RowChangeReader), error channel empty; through the CLI the DIFF_*.csv report of `wrgl diff a b --no-gui` must list exactly the model's added / removed / modified rows (keyed and keyless tables); distinct_nontrivial = distinct (scenario, key class, sizes, seed)",
+		Rule:        "table pairs from one key universe (disjoint either way, interleaved, nested, identical, shifted by 1/254/255/256 rows so every block boundary moves, random overlap; 0/1/255/256/765 rows on either side incl. empty; single, composite and absent keys; optional extra column; same or separate stores), both built by ingest with unique keys and verified by the structural monitor first; diff(T1,T2), diff(T2,T1) and diff(T1,T1) are drained and compared with a set-difference model keyed by key hash: exactly one event per added/removed/modified key, none for identical rows, none twice, offsets and row hashes address the right rows (also when resolved through RowListReader / RowChangeReader), error channel empty; through the CLI the DIFF_*.csv report of `wrgl diff a b --no-gui` must list exactly the model's added / removed / modified rows (keyed and keyless tables) and the summary of `wrgl diff --all` the same three counts; with one store read failing the error must be reported or the events still be complete; distinct_nontrivial = distinct (scenario, key class, sizes, seed)",
 		Assumptions: []string{"when the column lists differ the statement is silent about common keys: only added/removed are judged exactly", "tables without a primary key whose column lists differ are not diffed row by row by design (DiffTables reports nothing, the commands show the column change only): not judged", "inputs are C03-valid tables with unique keys"},
 		Gen: func(tier string, seed int64) []fw.Case {
 			l := fw.NewCaseList("C04", tier, seed)
